@@ -310,6 +310,10 @@ struct Shared
     char label[64][1024];
 };
 
+#ifdef VX_COVERAGE
+extern "C" void __gcov_dump(void);
+#endif
+
 static void worker_main(
     int w, size_t n, Shared* sh, int timeout_s, const std::string& dir,
     const std::function<void(size_t, int64_t, Emitter&, Sub&)>& fn, double deadline_abs, int64_t resume_case,
@@ -374,6 +378,9 @@ static void worker_main(
         em.emit(std::string("#done"));
         sh->current[w].store(-1);
     }
+#ifdef VX_COVERAGE
+    __gcov_dump();  // coverage measurement builds only (scripts/coverage.sh): workers leave through _exit
+#endif
     _exit(0);
 }
 
